@@ -84,6 +84,7 @@ type reqState struct {
 	sw      *SimWriter
 	ctx     *rux.Context
 	started map[string]int
+	cancel  context.CancelFunc
 }
 
 type routeRec struct {
@@ -602,6 +603,17 @@ func (w *World) act(rs *reqState, id string, c *rux.Context, a Action) {
 		c.Req = c.Req.WithContext(context.WithValue(c.Req.Context(), swapKey{}, id))
 	case "yield":
 		taskYield(-1)
+	case "cancelreq": // the client goes away (or a deadline fires) while the chain is running
+		if rs.cancel != nil {
+			rs.cancel()
+		}
+	case "introspect": // what a route-dump / admin handler does at request time
+		r := c.Router()
+		n := len(r.String()) * 0
+		n += len(r.Routes()) + len(r.NamedRoutes()) + len(r.Handlers())
+		r.IterateRoutes(func(*rux.Route) { n++ })
+		_ = r.GetRoute("route0")
+		add("introspect", strconv.Itoa(n))
 	case "copy": // keep a Copy() of the context beyond the request, as a handler does for a background goroutine
 		if i := w.storeCopy(c.Copy(), rec); i >= 0 {
 			atomic.StoreUint32(&w.copyCell[i], 1) // the happens-before edge of the go statement that hands the copy over
@@ -683,6 +695,10 @@ func (w *World) observe(rs *reqState, c *rux.Context) string {
 		b.WriteString(" raw=FOREIGN")
 	}
 	fmt.Fprintf(&b, " resp=%T", c.Resp)
+	if c.Req != nil {
+		// what the request-derived getters say (a value kept from another request would show here)
+		fmt.Fprintf(&b, " acc=%v q=%s ct=%s ip=%s", c.AcceptedTypes(), c.Query("q"), c.ContentType(), c.ClientIP())
+	}
 	return b.String()
 }
 
@@ -705,19 +721,26 @@ func sortedKV(m map[string]string) string {
 }
 
 func newHTTPRequest(method, path string, rs *reqState) *http.Request {
-	u := &url.URL{Scheme: "http", Host: "sim", Path: path}
+	// a token derived from the request itself (so that the solo twin carries the same one): query and Accept header
+	tok := strconv.FormatUint(hashStr(reqKey(rs.req))%100000, 10)
+	u := &url.URL{Scheme: "http", Host: "sim", Path: path, RawQuery: "q=" + tok}
 	req := &http.Request{
 		Method:     method,
 		URL:        u,
 		Proto:      "HTTP/1.1",
 		ProtoMajor: 1,
 		ProtoMinor: 1,
-		Header:     http.Header{},
+		Header:     http.Header{"Accept": {"application/x-" + tok + ", text/plain;q=0.5"}, "Content-Type": {"text/x-" + tok}, "X-Real-Ip": {"10.0." + tok[:1] + ".1"}},
 		Host:       "sim",
 		RequestURI: path,
 		Body:       http.NoBody,
 	}
-	return req.WithContext(context.WithValue(context.Background(), ctxKey{}, rs))
+	ctx, cancel := context.WithCancel(context.WithValue(context.Background(), ctxKey{}, rs))
+	rs.cancel = cancel
+	if rs.req.Gone {
+		cancel()
+	}
+	return req.WithContext(ctx)
 }
 
 // Serve runs one request on the world's router on the calling goroutine.
